@@ -498,9 +498,19 @@ func gExtHeaders(rt *rapid.T, label string, max int, maxLong int) []AHdr {
 	return out
 }
 
+// gSP: the white space between the colon and the value - usually one blank,
+// sometimes none, several, a tab (RFC 3261 7.3.1 allows any linear white space
+// there; none of it belongs to the value).
 func gSP(rt *rapid.T, label string) string {
-	if rapid.IntRange(0, 5).Draw(rt, label) == 0 {
+	switch rapid.IntRange(0, 11).Draw(rt, label) {
+	case 0, 1:
 		return ""
+	case 2:
+		return "  "
+	case 3:
+		return "\t"
+	case 4:
+		return " \t "
 	}
 	return " "
 }
